@@ -96,6 +96,9 @@ func diffSnap(a, b map[string]fileInfo, mtime bool) string {
 }
 
 // TestDeterminism: k fresh processes per design must write the same files with the same bytes.
+// fixedDesigns take the place of the first generated designs of TestDeterminism.
+var fixedDesigns = []func() *m.Design{gen.MapKeyMatrix, gen.KindMatrix}
+
 func TestDeterminism(t *testing.T) {
 	n := rt.EnvInt("VERIF_CHECKS", 16)
 	seed := rt.EnvInt("VERIF_SEED", 1)
@@ -121,6 +124,9 @@ func TestDeterminism(t *testing.T) {
 			sem <- struct{}{}
 			defer func() { <-sem }()
 			d := gen.Design(prof).Example(seed*1000003 + i)
+			if i < len(fixedDesigns) {
+				d = fixedDesigns[i]()
+			}
 			run, err := sess.Place(d, nil)
 			if err != nil {
 				return
